@@ -196,7 +196,17 @@ def mechanical(ctx, P, s, N, fn, graph, operand, extra):
         # field.name.unwrap() where every element of the mapped collection has is_some(name)
         m = re.fullmatch(r"(C\d+_\d+|elem\((.+)\))\.(name|0)", rs)
         if m:
-            for c in GD.flatten(conds):
+            flat = list(GD.flatten(conds))
+            # what the guards leave: `a || b` holds and b does not  =>  a holds
+            false_ = {show(c[1]) for c in flat if c[0] is False}
+            for c in list(flat):
+                if c[0] is True and c[1][0] == "op" and c[1][1] == "||" and len(c[1][2]) == 2:
+                    x, y = c[1][2]
+                    if show(y) in false_:
+                        flat.append((True, x))
+                    elif show(x) in false_:
+                        flat.append((True, y))
+            for c in flat:
                 if c[0] == "arm":
                     # (all_named, all_unnamed) tuple match: arm (true,false)
                     sc, pat = show(c[1]), c[2]
